@@ -364,6 +364,14 @@ func (e *Enc) mapArrs(t types.Type) (dn, ds, vn, vs string) {
 
 func (e *Enc) store(cur *cursor, addr, val Val, pos token.Pos, addrV ssa.Value) {
 	st := cur.st
+	if addr.K == vLocal && len(addr.Path) == 0 && val.K == vLocal && e.lazy[val.Alloc] {
+		if _, done := st.mat[val.Alloc]; !done {
+			// the address of a not-yet-materialised local is parked in a local pointer variable: no escape yet
+			e.lazyRefs = append(e.lazyRefs, val)
+			st.loc[addr.Alloc] = fmt.Sprintf("@lazy!%d", len(e.lazyRefs)-1)
+			return
+		}
+	}
 	vt := e.asTerm(val)
 	switch addr.K {
 	case vLocal:
@@ -480,6 +488,10 @@ func (e *Enc) unop(cur *cursor, x *ssa.UnOp) {
 			if !ok {
 				e.unsupportedf("load of local %s before allocation on this path", a.Comment)
 				curv = e.m.zero(at)
+			}
+			if strings.HasPrefix(curv, "@lazy!") && len(addr.Path) == 0 {
+				fc.vals[x] = e.lazyRef(st, curv)
+				return
 			}
 			v, _ := e.project(curv, at, addr.Path)
 			e.setVal(cur, x, v)
